@@ -4,6 +4,7 @@ package main
 
 import (
 	"crypto/sha256"
+	"encoding/json"
 	"fmt"
 	"net/http"
 	"net/http/httptest"
@@ -172,6 +173,42 @@ func (g *gen) newLive(f *opfix.Fixture, st *refstore.Store, rt opfix.Router) liv
 	return l
 }
 
+// oddSigned: the claims of a live id token / JWT access token with some of them removed, zeroed, moved into the
+// future or wrongly typed, signed again with the provider's key (partial-result returns of the verifiers are
+// where callers dereference)
+func (g *gen) oddSigned(l live) string {
+	r := g.r
+	src := drv.Pick(r, []string{l.idToken, l.atJWT})
+	claims := opfix.JWTPayload(src)
+	if claims == nil {
+		claims = map[string]any{"iss": opfix.Issuer, "sub": "alice", "aud": []any{"web"}, "azp": "web", "exp": g.now + 600, "iat": g.now}
+	}
+	keys := []string{"iat", "exp", "aud", "sub", "auth_time", "azp", "iss", "jti", "nonce", "nbf", "client_id", "amr", "scope", "at_hash", "act"}
+	for k := 0; k < 1+r.IntN(3); k++ {
+		key := drv.Pick(r, keys)
+		switch r.IntN(7) {
+		case 0, 1:
+			delete(claims, key)
+		case 2:
+			claims[key] = 0
+		case 3:
+			claims[key] = g.now + drv.Pick(r, []int64{2, 3600, 1 << 40})
+		case 4:
+			claims[key] = nil
+		case 5:
+			claims[key] = drv.Pick(r, []any{"", []any{}, map[string]any{}, "x", -1, 1.5, true})
+		default:
+			claims[key] = g.now - 100000
+		}
+	}
+	b, err := json.Marshal(claims)
+	if err != nil {
+		return "a.b.c"
+	}
+	sk := opfix.DefaultSigning()
+	return sign(sk.Priv, sk.Alg, sk.KID, b)
+}
+
 // hostile token strings
 func (g *gen) evilToken(l live) (string, string) {
 	r := g.r
@@ -183,7 +220,9 @@ func (g *gen) evilToken(l live) (string, string) {
 		return b64.EncodeToString([]byte(`{"alg":"ES256","kid":"sig-es256-1"}`)) + "." + b64.EncodeToString([]byte(payload)) + "." + b64.EncodeToString(r.Bytes(64))
 	}
 	live := fmt.Sprintf(`"iss":"%s","sub":"alice","exp":%d,"iat":%d`, opfix.Issuer, g.now+600, g.now)
-	switch r.IntN(22) {
+	switch r.IntN(27) {
+	case 22, 23, 24, 25, 26: // a live token of this provider, re-signed with the provider's key after making single claims odd
+		return g.oddSigned(l), ""
 	case 16, 17, 18: // the opaque-token decoder's own tolerances: skipped CR / LF, padding, lengths around 16 bytes / 22 characters
 		n, m, other := g.opaqueShape()
 		return g.opaqueString(n, m, other), ""
